@@ -72,7 +72,8 @@ def run(chk):
     raw = make_raw(rng)
     headers = {
         'snapshot': {'BoxSize': BOX, 'VelZSpace_to_kms': VELZ, 'ppd': float(PPD), 'SimName': 'verif', 'OutputType': 'TimeSlice'},
-        'lightcone': {'BoxSize': BOX, 'VelZSpace_to_kms': VELZ, 'ppd': float(PPD), 'SimName': 'verif', 'OutputType': 'LightCone', 'SimSet': 'AbacusSummit',
+        # ppd is stored as NP**(1/3): a float that may sit just below the integer it stands for
+        'lightcone': {'BoxSize': BOX, 'VelZSpace_to_kms': VELZ, 'ppd': float(np.nextafter(float(PPD), 0.0)), 'SimName': 'verif', 'OutputType': 'LightCone', 'SimSet': 'AbacusSummit',
                       'ParticleSubsampleA': 0.03, 'ParticleSubsampleB': 0.07},
     }
     files = {}
